@@ -36,19 +36,21 @@ func init() {
 // ---------- programs ----------
 
 type ccall struct {
-	op string // add, head, close, removeall, size, empty, array, wait, done
-	q  int
-	v  int
+	op  string // add, head, close, removeall, size, empty, array, wait, done
+	q   int
+	v   int
+	via string // array: "" = AsArray(), "iterator" = GetIterator() and a full walk (the model's CAsArray either way)
 }
 
 type cthread struct {
-	kind  string // client, consumer, fork, split, join, ctor (a constructor from n initial values, then size and array)
-	form  string // ctor: array, seq, module, parse
-	n     int    // ctor: number of initial values
-	vals  []int  // ctor: the initial values (codes, see concelem.go); len(vals) == n
-	calls []ccall
-	q     int   // consumer: queue; fork/split: input; join: output
-	qs    []int // fork/split: outputs; join: inputs
+	kind   string // client, consumer, fork, split, join, ctor (a constructor from n initial values, then size and array)
+	form   string // ctor: array, seq, module, parse
+	n      int    // ctor: number of initial values
+	vals   []int  // ctor: the initial values (codes, see concelem.go); len(vals) == n
+	capArg int    // ctor, form modulecap: the explicit capacity passed to the module-level constructor next to the values
+	calls  []ccall
+	q      int   // consumer: queue; fork/split: input; join: output
+	qs     []int // fork/split: outputs; join: inputs
 }
 
 type cprog struct {
@@ -102,8 +104,10 @@ func (t cthread) gallina() string {
 		return "client [" + strings.Join(cs, "; ") + "]"
 	case "ctor":
 		cs := make([]string, 0, t.n+2)
-		for _, v := range t.vals {
-			cs = append(cs, fmt.Sprintf("CAdd 0 %d", v))
+		if t.form != "modulecap" { // (with an explicit capacity the module-level constructor makes an EMPTY queue of that capacity)
+			for _, v := range t.vals {
+				cs = append(cs, fmt.Sprintf("CAdd 0 %d", v))
+			}
 		}
 		cs = append(cs, "CGetSize 0", "CAsArray 0")
 		return "client [" + strings.Join(cs, "; ") + "]"
@@ -131,12 +135,17 @@ func (t cthread) human() string {
 				}
 			} else if c.op == "wait" || c.op == "done" {
 				cs[i] = c.op
+			} else if c.op == "array" && c.via == "iterator" {
+				cs[i] = fmt.Sprintf("array(q%d) read through GetIterator()+walk", c.q)
 			} else {
 				cs[i] = fmt.Sprintf("%s(q%d)", c.op, c.q)
 			}
 		}
 		return "client{" + strings.Join(cs, " ") + "}"
 	case "ctor":
+		if t.form == "modulecap" {
+			return fmt.Sprintf("client{q0 := module-level Queue(capacity %d, array of %d values %s) - expected: an empty queue of that capacity, the array is ignored; size(q0) array(q0)}", t.capArg, t.n, shortCodes(t.vals))
+		}
 		return fmt.Sprintf("client{q0 := Queue constructor form=%s with %d initial values %s; size(q0) array(q0)}", t.form, t.n, shortCodes(t.vals))
 	case "consumer":
 		return fmt.Sprintf("consumer-until-closed(q%d)", t.q)
@@ -357,6 +366,7 @@ type crun struct {
 	sizes    []int
 	wgSpawn  []int
 	resultsH [][]string
+	snaps    map[int][][]int // per thread: the queue's contents read by the scheduler (every goroutine parked) right after each AsArray/GetIterator step of that thread
 }
 
 // runProgram executes prog on the real library; choose picks the index (into the enabled list) at each step.
@@ -540,7 +550,21 @@ func runProgramT[V any](prog cprog, cd elemCodec[V], choose func(step int, enabl
 				case "empty":
 					t.results = append(t.results, fmt.Sprintf("REmpty %v", q.IsEmpty()))
 				case "array":
-					t.results = append(t.results, "RArray "+zList(codesOf(q)))
+					if c.via == "iterator" {
+						// the same observation through the iterator: it must enumerate the queue as it was when it was obtained
+						// (one scheduling point, kind 7, like AsArray); walked to the end, then HasNext must stay false
+						it := q.GetIterator()
+						var got []int
+						for n := 0; it.HasNext() && n < 10000; n++ {
+							got = append(got, dec(it.GetNext()))
+						}
+						if it.GetSize() != len(got) {
+							got = append(got, -2) // the iterator's size and its walk disagree: shows as a value no model run has
+						}
+						t.results = append(t.results, "RArray "+zList(got))
+					} else {
+						t.results = append(t.results, "RArray "+zList(codesOf(q)))
+					}
 				}
 				return
 			}
@@ -557,6 +581,12 @@ func runProgramT[V any](prog cprog, cd elemCodec[V], choose func(step int, enabl
 					q = class.MakeFromSequence(col.List[V](sharedNotation).MakeFromArray(vals))
 				case "module":
 					q = fra.Queue[V](vals)
+				case "modulecap":
+					if pt.capArg%2 == 0 {
+						q = fra.Queue[V](pt.capArg, vals)
+					} else {
+						q = fra.Queue[V](vals, uint(pt.capArg))
+					}
 				default: // "parse": integers only (genConc never asks for it with another element type)
 					items := make([]string, len(vals))
 					for i := range vals {
@@ -568,8 +598,10 @@ func runProgramT[V any](prog cprog, cd elemCodec[V], choose func(step int, enabl
 					}
 					q = sharedNotation.ParseSource(src).(anyQueue)
 				}
-				for i := 0; i < pt.n; i++ {
-					t.results = append(t.results, "RAdded")
+				if pt.form != "modulecap" {
+					for i := 0; i < pt.n; i++ {
+						t.results = append(t.results, "RAdded")
+					}
 				}
 				s.mu.Lock()
 				s.queues[0] = q
@@ -633,8 +665,26 @@ func runProgramT[V any](prog cprog, cd elemCodec[V], choose func(step int, enabl
 			s.closed[t.qobj] = true
 		}
 		t.state = stRunning
+		kind7, q7 := t.kind == 7, t.qobj
 		s.mu.Unlock()
 		t.grant <- true
+		if kind7 && q7 != nil {
+			// an observer's critical section (AsArray / GetIterator) runs now; once every goroutine is parked again the
+			// scheduler reads the queue itself: nothing has moved in between, so the observer must have seen exactly this
+			if s.quiescent(4 * time.Second) {
+				ch := make(chan []int, 1)
+				go func() { ch <- codesOf(q7) }()
+				select {
+				case snap := <-ch:
+					if out.snaps == nil {
+						out.snaps = map[int][][]int{}
+					}
+					out.snaps[tid] = append(out.snaps[tid], append([]int{}, snap...))
+				case <-time.After(2 * time.Second):
+					s.stuckMutex = true
+				}
+			}
+		}
 	}
 	// observations
 	out.final = !out.hung
@@ -721,12 +771,39 @@ func checkRun(prog cprog, run crun) []string {
 	}
 	for _, t := range prog.threads {
 		if t.kind == "ctor" && !run.final {
+			if t.form == "modulecap" {
+				return []string{fmt.Sprintf("the module-level constructor Queue(capacity %d, array of %d values %s) did not return: it is blocked on the capacity of the queue it is constructing", t.capArg, t.n, codeNames(prog.elem, t.vals))}
+			}
 			return []string{fmt.Sprintf("the Queue constructor (form %s) with %d initial values did not return: it is blocked on its own capacity", t.form, t.n)}
 		}
 	}
 	for i, n := range run.wgSpawn {
 		if n != i+1 {
 			bad = append(bad, fmt.Sprintf("when helper goroutine %d was started the caller's wait group counted %d instead of %d: group.Add must precede the go statement, otherwise group.Wait can return before the helper has run (outputs never filled nor closed)", i+1, n, i+1))
+		}
+	}
+	// observers: what a thread read through AsArray() / GetIterator() must be what the queue held at that moment
+	// (C04: only values added and not yet removed, in FIFO order; C17: an iterator enumerates the collection as it
+	// was when it was obtained) - the scheduler read the queue itself right after the observer's step
+	for ti, res := range run.results {
+		if res == nil || ti >= len(prog.threads) || prog.threads[ti].kind != "client" {
+			continue
+		}
+		k := 0
+		for ci, r := range res {
+			if ci >= len(prog.threads[ti].calls) || !strings.HasPrefix(r, "RArray ") || prog.threads[ti].calls[ci].op != "array" {
+				continue
+			}
+			if k < len(run.snaps[ti]) {
+				if want := "RArray " + zList(run.snaps[ti][k]); r != want {
+					how := "AsArray()"
+					if prog.threads[ti].calls[ci].via == "iterator" {
+						how = "GetIterator() and a full walk"
+					}
+					bad = append(bad, fmt.Sprintf("observer thread %d read %s through %s while the queue held %s at that moment (read by the scheduler with every goroutine parked): a state the queue was never in", ti, strings.TrimPrefix(r, "RArray "), how, zList(run.snaps[ti][k])))
+				}
+			}
+			k++
 		}
 	}
 	// values are identified by their code; one code may be added several times (streams of zero values), so
@@ -827,6 +904,14 @@ func checkRun(prog cprog, run crun) []string {
 		}
 	}
 	for _, t := range prog.threads {
+		if t.kind == "ctor" && t.form == "modulecap" {
+			// no class-level constructor takes a capacity AND values; the module-level one gives the capacity precedence and
+			// ignores the array: the one thing demanded of the call is that it returns (it is not filled beyond its capacity)
+			if run.final && len(run.arrays) > 0 && len(run.arrays[0]) > t.capArg {
+				bad = append(bad, fmt.Sprintf("module-level Queue(capacity %d, %d values) holds %d values: more than its capacity", t.capArg, t.n, len(run.arrays[0])))
+			}
+			continue
+		}
 		if t.kind == "ctor" && run.final && len(run.arrays) > 0 && fmt.Sprint(run.arrays[0]) != fmt.Sprint(append([]int{}, t.vals...)) {
 			bad = append(bad, fmt.Sprintf("the Queue constructor (form %s) was given %s but the new queue holds %s", t.form, codeNames(prog.elem, t.vals), codeNames(prog.elem, run.arrays[0])))
 		}
@@ -912,7 +997,11 @@ func genPC(r *rng, withRemoveAll bool, elem string) cprog {
 		t.kind = "client"
 		n := 1 + r.intn(4)
 		for j := 0; j < n; j++ {
-			t.calls = append(t.calls, ccall{op: []string{"size", "array", "empty"}[r.intn(3)], q: 0})
+			c := ccall{op: []string{"size", "array", "empty", "array"}[r.intn(4)], q: 0}
+			if c.op == "array" && r.chance(1, 2) {
+				c.via = "iterator"
+			}
+			t.calls = append(t.calls, c)
 		}
 		p.threads = append(p.threads, t)
 	}
@@ -1198,6 +1287,13 @@ func genConc(prop string, seed uint64, tier, outDir string, count int) error {
 				if form == "module" && n == 0 {
 					form = "array" // the module-level form with no data is C20's matter
 				}
+				capArg := 0
+				if r.chance(1, 4) {
+					// the module-level constructor given BOTH a capacity and an array, capacities around the number of values
+					form = "modulecap"
+					capArg = []int{1, 2, 3, 16, 17}[r.intn(5)]
+					n = []int{0, capArg - 1, capArg, capArg + 1, capArg + 3, 2 * capArg}[r.intn(6)]
+				}
 				vals := genStream(r, n, elem, streamPatterns[r.intn(len(streamPatterns))])
 				if form == "parse" {
 					for k := range vals {
@@ -1205,7 +1301,10 @@ func genConc(prop string, seed uint64, tier, outDir string, count int) error {
 					}
 				}
 				prog = cprog{family: "ctor", elem: elem, caps: []int{0}, capExpr: []string{fmt.Sprintf("Z.to_nat (Z.max Params.queue_default_capacity %d)", n)}}
-				prog.threads = []cthread{{kind: "ctor", form: form, n: n, vals: vals}}
+				if form == "modulecap" {
+					prog.caps, prog.capExpr = []int{capArg}, nil
+				}
+				prog.threads = []cthread{{kind: "ctor", form: form, n: n, vals: vals, capArg: capArg}}
 			} else {
 				prog = genPC(r, i%2 == 1, concElems[(i/2)%len(concElems)])
 			}
@@ -1344,7 +1443,7 @@ func genConc(prop string, seed uint64, tier, outDir string, count int) error {
 	}
 	meta.Extra["cases_violating_the_property_predicates_on_the_implementation"] = predViol
 	meta.Cases = len(cases)
-	meta.Rule = "the queues of a case carry one of the element types int, string, *int, any, []int (each in turn); values are written as integer codes (0 = the zero value of the type: 0, \"\", nil pointer, nil interface, nil slice; 1..9 further special values: pointer to 0, any(\"\"), any(0), any((*int)(nil)), any([]int(nil)), any(false), empty non-nil slice; >= 10 ordinary distinct values); about a third of the added values are zero/special, one program in eight adds only zero values; C06 streams follow the patterns no-zero / zero-first / zero-middle / zero-last / all-zero / mixed / specials-only in turn; each case is a client program (C04/C05: 1-3 producers adding 1-3 values, 1-3 consumers (fixed number of RemoveHead or read-until-closed), capacity 1-3, optional closer behind the wait group, observers, optional RemoveAll caller, occasionally a CloseQueue racing with AddValue; C06: Fork/Split/Split+Join with stream length 0-6, fan-out 2-3, capacity 1-2, feeder, one reader per output, a waiter) together with the schedule the controlled scheduler drew for it on the real code (thorough: additionally every schedule of a few small programs, up to 4000 each); distinct = the (program, schedule, results) text differs; non-trivial = at least 4 granted steps"
+	meta.Rule = "the queues of a case carry one of the element types int, string, *int, any, []int (each in turn); values are written as integer codes (0 = the zero value of the type: 0, \"\", nil pointer, nil interface, nil slice; 1..9 further special values: pointer to 0, any(\"\"), any(0), any((*int)(nil)), any([]int(nil)), any(false), empty non-nil slice; >= 10 ordinary distinct values); about a third of the added values are zero/special, one program in eight adds only zero values; C06 streams follow the patterns no-zero / zero-first / zero-middle / zero-last / all-zero / mixed / specials-only in turn; each case is a client program (C04/C05: 1-3 producers adding 1-3 values, 1-3 consumers (fixed number of RemoveHead or read-until-closed), capacity 1-3, optional closer behind the wait group, observers (GetSize, IsEmpty, and the contents read through AsArray() or through GetIterator() and a full walk - the model's CAsArray either way), optional RemoveAll caller; C05 constructors: class-level MakeFromArray / MakeFromSequence, the module-level Queue(values), a parsed literal, and - a quarter of them - the module-level Queue(capacity, values) with 0 .. 2*capacity values, which must return (an empty queue of that capacity on the pinned tree), occasionally a CloseQueue racing with AddValue; C06: Fork/Split/Split+Join with stream length 0-6, fan-out 2-3, capacity 1-2, feeder, one reader per output, a waiter) together with the schedule the controlled scheduler drew for it on the real code (thorough: additionally every schedule of a few small programs, up to 4000 each); distinct = the (program, schedule, results) text differs; non-trivial = at least 4 granted steps"
 	for i := 0; i < 3 && i < len(cases); i++ {
 		meta.Samples = append(meta.Samples, meta.Traces[i*len(cases)/3])
 	}
